@@ -10,12 +10,19 @@ if st:
 r = subprocess.run(['git','-C','/repo','apply',patch],capture_output=True,text=True)
 if r.returncode != 0:
     print("SEEDED-ERROR: patch does not apply:", r.stderr); sys.exit(3)
+import os, shutil
+ev = f'/verif/evidence/{cid}.json'
+bak = ev + '.clean-tree.bak'
+if os.path.exists(ev):
+    shutil.copy(ev, bak)  # the run below is on a changed tree: its evidence file must not survive
 try:
     r = subprocess.run(['/verif/bin/check', cid] + extra, capture_output=True, text=True)
     out = (r.stdout + r.stderr).strip().splitlines()
     print('\n'.join(out[-10:]))
     print(f"SEEDED-RESULT {cid} {patch} exit={r.returncode} {'FLAGGED' if r.returncode==1 else ('SILENT' if r.returncode==0 else 'ERROR')}")
 finally:
+    if os.path.exists(bak):
+        shutil.move(bak, ev)
     subprocess.run(['git','-C','/repo','checkout','--','.'])
     subprocess.run(['git','-C','/repo','clean','-fdq'])
     # binaries built from the mutated tree must not survive it
